@@ -88,23 +88,27 @@ CLAIMED.update({
              '0/1/2, a number, a string and nil so that the solver decides which calls fail), 1 or 3 (thorough 5) times in a row; afterwards sp/bp/ep must '
              'equal those of a VM that never failed, a later successful evaluation must return the same value and registers, and a later failing evaluation '
              'the same error and the same number of stack-trace frames as in a fresh VM. Memory clause: a failing evaluation that starts on a heap at 80% utilisation holding 40 '
-             'unreachable cells ends with all of them reclaimed (the error arm collects as the success arm does), for 1 and 3 failures in a row.',
-        note='Read and compile errors (no VM state touched before run) and failures inside continuations are outside. The shapes are enumerated; the symbolic '
+             'unreachable cells ends with all of them reclaimed (the error arm collects as the success arm does), for 1 and 3 failures in a row. Stack-trace clause for failures that do not run: the real prepare_eval / compile_runnable / compile_expression on every atom (symbolic payloads) from a VM whose last_stacktrace is Some(..) must leave it None.',
+        note='Effects of a failing compile of compound forms (e.g. a define-syntax bound at compile time: seeded change C07C is missed) and failures inside continuations are outside. The shapes are enumerated; the symbolic '
              'content is the call target and data operands. Counterexamples are replayed on the real VM through the verif-hooks feature.',
         technique='symbolic execution of rustc MIR with z3 from fabricated VM states, native replay through hooks', design='4/C07'),
 })
 
 CLAIMED.update({
     'C04': dict(
-        text='Run-time half only, as a differential step lemma: the real run_one arms CALL / TCALL / ENTER / VARARG / RET executed from MIR on fabricated '
-             'programs; for 70 shapes (caller/callee argument counts 0..2 (thorough 0..3), fixed / variadic callee with every required count and every '
-             'number of passed arguments, lambda / closure callee, chains of two tail calls) a chain main -CALL-> c0 -TCALL-> .. -> ck reaches the body of ck '
-             'with the same sp, bp, frame contents and rest list as the direct call main -CALL-> ck, and both return to main with the same sp/bp/ep/acc. '
-             'Argument values are solver variables. n tail calls = stack of one call follows by the induction argument in DESIGN.md.',
-        note='The compile-time half (every R7RS tail context incl. the prelude derived forms is compiled to TCALL) is NOT covered: a compiler or prelude '
-             'change that drops a tail call is not detected (seeded change C04B is missed for that reason). The frame arithmetic does not branch on argument '
-             'values, so the solver decides only the value-equality obligations; shapes are enumerated. apply / call/cc / eval in tail position are outside.',
-        technique='symbolic execution of rustc MIR (differential step lemma on fabricated frames, symbolic argument values), native replay by single-stepping through hooks', design='4/C04'),
+        text='Two lemmas. (1) Run-time, differential step lemma: the real run_one arms CALL / TCALL / ENTER / VARARG / RET and the builtins apply and call/cc executed from MIR on fabricated '
+             'programs; for 132 shapes (caller/callee argument counts 0..2 (thorough 0..3), fixed / variadic callee with every required count and every number of passed arguments, '
+             'lambda / closure callee, chains of two tail calls, tail calls through apply with every split between direct and list arguments, through call/cc) a chain '
+             'main -CALL-> c0 -TCALL-> .. -> ck reaches the body of ck with the same sp, bp, frame contents and rest list as the direct call main -CALL-> ck, and both return to main '
+             'with the same sp/bp/ep/acc. Argument values are solver variables. (2) Compile-time + run-time: the real load_builtins, the whole prelude.scm of the current tree, the real '
+             'compiler and syntax-rules expander and the real run loop are executed from MIR: for 28 source forms with the call (g K) in each R7RS 3.5 tail position (last body expression, '
+             'if arms incl. one-armed, cond / case clauses with and without else, and, or, when, unless, let, let*, letrec, named let, begin, nested combinations, lambda application, apply, eval) '
+             'the callee is entered at exactly the sp / bp of a direct tail call and returns the same value; the tested boolean x and the argument K are solver variables (the solver decides '
+             'which branches are feasible). A vacuity witness (g (g K)) must show the non-tail call higher. n tail calls = stack of one call follows by the induction argument in DESIGN.md.',
+        note='The forms of lemma (2) are enumerated source texts read by a small harness-side reader (lex / parse are the subject of C11); HashSet iteration order is modelled as insertion order. '
+             'The frame arithmetic does not branch on argument values, so in lemma (1) the solver decides only value-equality obligations. letrec* is not in the list: on the unchanged tree '
+             '(letrec* ((y 1)) ..) fails with an unbound variable <undefined> (a C01 matter, not claimed). call/cc in lemma (2) and forms with internal defines are outside.',
+        technique='symbolic execution of rustc MIR with z3: differential step lemma on fabricated frames, and the real compiler / macro expander / prelude / run loop on source forms with symbolic leaves; native replay by single-stepping through hooks and by stack-trace depth through the public API', design='4/C04, 9.7'),
     'C05': dict(
         text='Capture / restore step lemmas on the real call_cc, to_continuation, restore_continuation and the continuation arms of CALL/TCALL: (1) the captured '
              'object equals the machine state with receiver and argc popped and ip after the call; (2) from any later state (stack cells of symbolic kind and '
@@ -133,7 +137,7 @@ CLAIMED.update({
              'abs, floor, ceil, truncate, numerator, denominator executed from MIR on symbolic operands (any i64 fixnum, bignums up to 2^66, any i32 numerator over a '
              'denominator palette). Oracle in 192-bit (768-bit for squares) bit-vector arithmetic: an exact result equals the exact rational value by '
              'cross-multiplication; a float result is accepted only if the exact value is not representable (cheap sufficient test); quotient / remainder / modulo '
-             'satisfy the division lemma with truncating / flooring side conditions for divisors from a palette. Kani harnesses re-decide fixnum kernels on the '
+             'satisfy the division lemma with truncating / flooring side conditions for divisors from a palette, each divisor carried as a fixnum (or a bignum where it does not fit) and a sub-palette also as a small bignum and as an integer-valued rational n/1. Kani harnesses re-decide fixnum kernels on the '
              'compiled code.',
         note='Symbolic x symbolic multiplication is windowed; rational multiplication and / take the second operand from a palette of concrete numbers; expt takes '
              'bases within 4 of stated centres, and above exponent 2 the solver enumerates the window. The error bound of inexact fall-backs is not checked. Two '
@@ -166,7 +170,7 @@ CLAIMED.update({
              'text of up to 3 (thorough 4) symbolic chars incl. non-ASCII representatives is covered the same way.',
         note='Outside: time bounds beyond the step budget, allocation failure, native stack exhaustion (C19), circular structures, containers longer than 2, the excluded procedures, '
              'the sliced evaluator and VM reuse after errors (C13, C07), the highlighter (its panics are reported by C20). With two or more arguments, later numeric arguments come '
-             'from boundary palettes (symbolic x symbolic products and float/int conversion circuits are not decided in time); expt/pow at arity 2 are excluded (C08 covers the arithmetic).',
+             'from boundary palettes (symbolic x symbolic products and float/int conversion circuits are not decided in time); the radix arguments of string->number / number->string also take 0, 1, 3, 36, 37 and 2^32+10; expt/pow at arity 2 are excluded (C08 covers the arithmetic).',
         technique='symbolic execution of rustc MIR with z3 on fabricated VM states (one harness per procedure and arity), native replay incl. time-limited hang confirmation', design='4/C06'),
 })
 
@@ -178,7 +182,7 @@ CLAIMED.update({
              'parse::parse_text. Claims per path: the datum read back is structurally equal with equal leaves and nothing is left over; writing it again yields the same text; '
              'Heap::get_as_cell(Heap::put_cell(d)) = d. Symbols: every text of up to 3 (thorough 4) symbolic chars that the reader turns into one symbol is written and read back.',
         note='Shapes are enumerated (stated per harness in the evidence); the solver decides the leaf obligations. The digits of a printed double are a library axiom (see C16). The trip through the '
-             'evaluator is reduced to put_cell / get_as_cell (compilation of (quote d) and the run loop are not executed).',
+             'evaluator: (quote d) runs through the real compiler, syntax-rules expander and run loop in a VM with the whole prelude loaded (all from MIR) for 16 quoted lists headed by or containing every prelude macro keyword and core form with a symbolic fixnum leaf; other shapes take put_cell / get_as_cell only.',
         technique='symbolic execution of rustc MIR with z3 (printer -> lexer -> parser on symbolic-length texts), native replay', design='4/C10'),
 })
 
